@@ -5,6 +5,8 @@
  *  dist           : distance matrices (square + condensed) of given matrices
  */
 #include "proto.h"
+void getLabels(matrix *m, matrix *centroids, uivector *labels);
+void getLabels_(matrix *m, matrix *centroids, uivector *labels, int nthreads);
 
 static double val(size_t i, size_t j){ return (double)((i*7 + j*3) % 11) - 4.0 + 0.125*(double)((i*i + j) % 5); }
 
@@ -61,7 +63,7 @@ int main(void)
        * sequential one (which leaves out every product with a missing operand) */
       { matrix *mm, *mmt; dvector *pr, *pm;
         NewMatrix(&mm, R, 3); NewMatrix(&mmt, 3, R);
-        for(i = 0; i < R; i++) for(j = 0; j < 3; j++){ double x = (i % 3 == 1 && j == 1) ? MISSING + ((i % 4 == 1) ? 0.05 : ((i % 4 == 2) ? -0.09 : 0.0)) : val(i, j); mm->data[i][j] = x; mmt->data[j][i] = x; }
+        for(i = 0; i < R; i++) for(j = 0; j < 3; j++){ double x = (i % 3 == 1 && j == 1) ? MISSING + ((i % 4 == 1) ? 0.05 : ((i % 4 == 2) ? -0.09 : 0.0)) : ((i % 5 == 3 && j == 2) ? MISSING + ((i % 2) ? 0.5 : -0.7) /* next to the code, outside its window: ordinary numbers */ : val(i, j)); mm->data[i][j] = x; mmt->data[j][i] = x; }
         NewDVector(&pr, R); NewDVector(&pm, R);
         MatrixDVectorDotProduct(mm, v, pr);
         verif_nproc_override = T; MT_MatrixDVectorDotProduct(mm, v, pm); verif_nproc_override = 0;
@@ -86,6 +88,18 @@ int main(void)
           pr_long("vecmissing_window_bad", bad);
           DelDVector(&vv); }
         DelDVector(&pr); DelDVector(&pm); DelMatrix(&mm); DelMatrix(&mmt); }
+      /* nearest-centroid labelling on a grid with exact ties and near-ties: the threaded labelling must equal the
+       * sequential one (first nearest centroid) */
+      if(R >= 1){
+        matrix *g, *cn; uivector *l1, *lT; long badl = -1;
+        NewMatrix(&g, R, 2); NewMatrix(&cn, 4, 2);
+        for(i = 0; i < R; i++){ g->data[i][0] = (double)(i % 5); g->data[i][1] = (double)((i / 5) % 5) + ((i % 7 == 6) ? 1e-9 : 0.0); }
+        cn->data[0][0] = 2; cn->data[0][1] = 1; cn->data[1][0] = 1; cn->data[1][1] = 2; cn->data[2][0] = 3; cn->data[2][1] = 3; cn->data[3][0] = 0; cn->data[3][1] = 4;
+        NewUIVector(&l1, R); NewUIVector(&lT, R);
+        getLabels(g, cn, l1); getLabels_(g, cn, lT, (int)T);
+        for(i = 0; i < R; i++) if(l1->data[i] != lT->data[i] && badl < 0) badl = (long)i;
+        pr_long("labels_bad_row", badl);
+        DelUIVector(&l1); DelUIVector(&lT); DelMatrix(&g); DelMatrix(&cn); }
       /* square distance matrices */
       for(me = 0; me < 4; me++){
         char nm[64];
